@@ -76,6 +76,21 @@ def simulate_witness(label, seed):
     x = rng.uniform(0.4, 1.6, len(names))
     times = [0.5, 1.5, 3.0]
     vals = {nm: float(x[k]) for k, nm in enumerate(names)}
+    # a selection of outputs in another order than before: outputs() publishes the requested order, and row i of the result is the solution
+    # of the i-th published output
+    try:
+        m2 = make_native(label)
+        outs0 = list(m2.outputs())
+        if len(outs0) > 1:
+            req = list(reversed(outs0))
+            m2.set_outputs(req)
+            r2 = np.asarray(m2.simulate(x, times))
+            w2 = reference_solution(m2._model, vals, req, times)
+            if list(m2.outputs()) != req or r2.shape != w2.shape or not np.allclose(r2, w2, rtol=1e-6, atol=1e-9):
+                return {'program': label, 'what': 'after set_outputs(%s): outputs() = %s; the rows of simulate() are the solutions of %s: %s' % (
+                    req, list(m2.outputs()), req, bool(r2.shape == w2.shape and np.allclose(r2, w2, rtol=1e-6, atol=1e-9))), 'expected': req, 'observed': list(m2.outputs())}
+    except Exception as ex:
+        return {'program': label, 'what': 'set_outputs with the outputs in reverse order / simulate raises %r' % (ex,), 'expected': 'solution', 'observed': repr(ex)}
     case = {'program': label, 'parameters': dict(zip(m.parameters(), x.tolist())), 'times': times}
     try:
         got = m.simulate(x, times)
